@@ -76,6 +76,25 @@ def gen(ctx):
             if total >= len(msg):
                 yield Case("DEC", W.hx(msg + bytes(total - len(msg))), tags=("bigbuf",))
         yield Case("DECS", W.hx(msg * 3 + bytes(65536) + msg), tags=("bigbuf",))
+    # create messages whose names are DIFFERENT but look alike to a weak key (same length and same 32-bit hash under the usual hash
+    # functions, same bytes permuted, same prefix/suffix): decoded one after the other in one process, each must give its own name,
+    # and the variant that is not UTF-8 must be refused however many look-alikes were accepted before it
+    import json as _json, os as _os
+    _col = _json.load(open(_os.path.join(_os.path.dirname(_os.path.abspath(__file__)), "collisions.json")))
+    _cr = lambda nm: W.enc_create(1, 2, 3, 4, 5, 6, 7, nm)
+    for _h, _t in sorted(_col.items()):
+        for _a, _b in _t["valid_valid"]:
+            for _x in (_a, _b, _a):
+                yield Case("DEC", W.hx(_cr(_x.encode())), tags=("look-alike-names",))
+            yield Case("DECS", W.hx(_cr(_a.encode()) + _cr(_b.encode()) + _cr(_a.encode())), tags=("look-alike-names",))
+        for _a, _bh in _t["valid_invalidhex"]:
+            for _x in (_a.encode(), bytes.fromhex(_bh), _a.encode()):
+                yield Case("DEC", W.hx(_cr(_x)), tags=("look-alike-names",))
+            yield Case("DECS", W.hx(_cr(_a.encode()) + _cr(bytes.fromhex(_bh))), tags=("look-alike-names",))
+    for _a, _b in ((b"abcdef", b"fedcba"), (b"abcdef", b"abdcef"), (b"reno-aaaa", b"reno-aaab"), (b"xreno", b"yreno"), (b"ab\x00cd", b"ab\x00ce"),
+                   (b"cubic", b"cubi\xff"), (b"\xc3\xa9", b"\xa9\xc3"), (b"bbr", b"BBR")):
+        for _x in (_a, _b, _a):
+            yield Case("DEC", W.hx(_cr(_x)), tags=("look-alike-names",))
     declared_all = list(range(0, 141)) + [1023, 1024, 1025, 65535]
     actual_all = list(range(0, 141)) + [1024]
     keep = 1.0 if ctx.thorough else 1 / 16
@@ -135,6 +154,6 @@ def nontrivial(c, r):
 
 
 def oracle(c, impl_res):
-    if c.cmd == "DECPAR" or (c.cmd == "DECS" and "bigbuf" in c.tags):
+    if c.cmd == "DECPAR" or (c.cmd == "DECS" and ("bigbuf" in c.tags or "look-alike-names" in c.tags)):
         return None  # the oracle's answer parser is for single results; these streams are decided by the correspondence with the model
     return ("ORC", "C04 %s %s" % (c.args, impl_res))
